@@ -171,6 +171,19 @@ def _sim_file_close(self):
             hook(e[1], e[2])
 
 
+# ------------------------------------------------------------ attribute writes
+_orig_attr_create = h5py.AttributeManager.create
+
+
+def _sim_attr_create(self, name, data, *args, **kwargs):
+    sim = kernel.SIM
+    if sim is not None:
+        hook = sim.hooks.get("attr")
+        if hook is not None:
+            hook(name)   # F9: may raise OSError (ENOSPC / EIO on this attribute write)
+    return _orig_attr_create(self, name, data, *args, **kwargs)
+
+
 # ----------------------------------------------------------------------- lock
 class SimLock:
     """Stand-in for the `multiprocess.Lock` shared with forked workers: a
@@ -260,9 +273,12 @@ class SimPool:
     `imap` delivers lazily in submission order; `imap_unordered` delivers in
     completion order; workers take task chunks FIFO."""
 
-    def __init__(self, processes=None, initializer=None, initargs=(), maxtasksperchild=None, *a, **kw):
+    def __init__(self, processes=None, initializer=None, initargs=(), maxtasksperchild=None, *a, copy=True, **kw):
         sim = kernel.SIM
         self.sim = sim
+        # copy=False models a THREAD pool (multiprocess.pool.ThreadPool, ThreadPoolExecutor.map):
+        # the callable, its arguments and results are shared objects, not pickled copies
+        self.copy = copy
         self.n = int(processes) if processes else (os.cpu_count() or 1)
         if self.n < 1:
             raise ValueError("Number of processes must be at least 1")
@@ -349,20 +365,20 @@ class SimPool:
                 sim.step("task-start", (job.no, i))
                 ok = True
                 try:
-                    func = dill.loads(fb)
+                    func = dill.loads(fb) if self.copy else fb
                     res = []
                     for ab in chunk:
-                        arg = dill.loads(ab)
+                        arg = dill.loads(ab) if self.copy else ab
                         hook = sim.hooks.get("task")
                         if hook is not None:
                             hook(job.no, i)  # F6: may raise
                         res.append(func(arg))
-                    payload = dill.dumps(res)
+                    payload = dill.dumps(res) if self.copy else res
                 except SimAbort:
                     raise
                 except Exception as e:
                     ok = False
-                    payload = _copy_exc(e)
+                    payload = _copy_exc(e) if self.copy else e
                     del e
                 sim.step("task-end", (job.no, i, ok))
                 job.deliver(i, ok, payload)
@@ -379,12 +395,12 @@ class SimPool:
     def _submit(self, kind, func, iterable, chunksize):
         self._check_running()
         items = list(iterable)
-        fb = dill.dumps(func)
+        fb = dill.dumps(func) if self.copy else func
         chunks = [items[k:k + chunksize] for k in range(0, len(items), chunksize)]
         job = _Job(self, kind, len(chunks))
         job.chunksize = chunksize
         for i, ch in enumerate(chunks):
-            self.tasks.append((job, i, fb, [dill.dumps(x) for x in ch]))
+            self.tasks.append((job, i, fb, [dill.dumps(x) if self.copy else x for x in ch]))
         self.sim.step("submit", (kind, job.no, len(chunks)))
         return job
 
@@ -404,7 +420,7 @@ class SimPool:
             raise job.first_failure
         out = []
         for i in range(job.n):
-            out.extend(dill.loads(job.results[i][1]))
+            out.extend(dill.loads(job.results[i][1]) if self.copy else job.results[i][1])
         self.sim.emit("map-done", job.no)
         return out
 
@@ -438,7 +454,7 @@ class SimPool:
             pos += 1
             if not ok:
                 raise payload
-            yield from dill.loads(payload)
+            yield from (dill.loads(payload) if self.copy else payload)
 
     def apply(self, func, args=(), kwds=None):
         kwds = kwds or {}
@@ -519,6 +535,7 @@ def install():
 
     h5py.File.__init__ = _sim_file_init
     h5py.File.close = _sim_file_close
+    h5py.AttributeManager.create = _sim_attr_create
 
     real_lock = cooler.parallel.lock
     _real["lock"] = real_lock
